@@ -121,7 +121,7 @@ def c01(m, tier):
         rules_struct.rule_insertion_guard(m), rules_struct.rule_hasedge(m), rules_struct.rule_full_loops(m, [LDG]),
         rules_struct.rule_observers(m), rules_decl.rule_encapsulation(m), rules_struct.rule_bulk_complete(m),
         rules_struct.rule_forwarding(m), rules_struct.rule_observer_loops(m), rules_decl.rule_defaults(m), rules_ts.rule_cursor_direction(m),
-        rules_xport.rule_idx(m), only_functions(rules_xport.rule_xport(m), ['LabeledDirectedGraph'])]
+        rules_xport.rule_idx(m), only_functions(rules_xport.rule_xport(m), ['LabeledDirectedGraph']), rules_ts.rule_shift_width(m)]
 
 
 def c02(m, tier):
@@ -174,7 +174,7 @@ def c16(m, tier):
         m, None, ['F-PAIR.N', 'F-PAIR.T', 'F-PAIR.M', 'F-PAIR.L'],
         {'F-PAIR.N': 40, 'F-PAIR.T': 17, 'F-PAIR.M': 15, 'F-PAIR.L': 30}) + [rules_ts.rule_sorted_range(m), rules_decl.rule_defaults(m), rules_ts.rule_cursor_direction(m),
          rules_struct.rule_selfloop_convention(m), rules_struct.rule_forwarding(m), rules_ts.rule_accumulator_width(m),
-         rules_struct.rule_full_loops(m)]
+         rules_struct.rule_full_loops(m), rules_ts.rule_shift_width(m)]
 
 
 def c08(m, tier):
@@ -649,7 +649,7 @@ ADDENDA = {
     'C15': 'Also decided: no function whose exception the loaders rely on is noexcept (D-NOEXCEPT), computed subscripts of '
            'fixed-size arrays are bounded (F-IO.TOK). Exception classes thrown derive publicly from std::exception. Text taken from the file is not matched with std::regex (stack use of the platform library).',
     'C16': 'Also decided: a force option is handed on to every insertion an operation performs (F-FWD; defect D17 of the pinned '
-           'tree), updates of the total written once after the arms of a branch are paired by path counting. Sums are accumulated in a type as wide as the counter they are applied to (F-ACCW). Vertex loops of the mutators are not left early (F-LOOP).',
+           'tree), updates of the total written once after the arms of a branch are paired by path counting. Sums are accumulated in a type as wide as the counter they are applied to (F-ACCW). Vertex loops of the mutators are not left early (F-LOOP). No 64-bit seen-mask is built by shifting an int (D-SHIFT).',
     'C17': 'Also decided: a list is not mutated under a live cursor, directly or through a callee (F-CURSOR.live), results of '
            'max_element / min_element are dereferenced only on a non-empty range, every scalar member is initialised (D-INIT), '
            'binary searches run on sorted ranges (F-SORTED), no signed arithmetic on converted unsigned values (F-SOVF). References obtained through std::min / std::max alias their arguments (F-TS); accumulator widths (F-ACCW); string literal + integer (D-STRPLUS). No three-iterator std::equal / is_permutation / mismatch without a length test (F-RANGE2); acyclic call graph (D-REC); no int shift into a 64-bit mask (D-SHIFT).',
